@@ -395,9 +395,16 @@ def probe_earlier_raise(ctx):
     from xdoctest import doctest_example
     for final in EARLIER_FINALS:
         early, line = EARLIER_TRUE[final]
-        for between in (0, 1, 2):
-            for lead in (0, 1):
+        for between, lead, directive in itertools.product((0, 1, 2), (0, 1), (None, 'block', 'inline', 'block-ied')):
+            if True:
+                # (a directive in the same chunk changes how the chunk is cut into parts)
                 L = ['>>> quiet(%d)' % (k + 1) for k in range(lead)]
+                if directive == 'block':
+                    L += ['>>> # xdoctest: +ELLIPSIS']
+                elif directive == 'block-ied':
+                    L += ['>>> # doctest: +IGNORE_EXCEPTION_DETAIL']
+                elif directive == 'inline':
+                    L += ['>>> quiet(7)  # xdoctest: +ELLIPSIS']
                 L += ['>>> ' + early]
                 L += ['>>> quiet(%d)' % (50 + k) for k in range(between)]
                 L += ['>>> ' + final, 'Traceback (most recent call last):', line, '>>> quiet(99)']
@@ -407,7 +414,7 @@ def probe_earlier_raise(ctx):
                 dt = doctest_example.DocTest(doc)
                 rec = harness.run_doctest(dt, extra_ns=extra_ns())
                 s = rec.summary
-                exp_T = list(range(1, lead + 1))
+                exp_T = list(range(1, lead + 1)) + ([7] if directive == 'inline' else [])
                 if rec.raised is not None or not s['failed'] or rec.T != exp_T:
                     ctx.violation('earlier-exception-credited', 'a statement WITHOUT a want raises the exception a later '
                                   "statement's traceback want documents: the doctest must fail there with event log %r; observed "
@@ -415,15 +422,17 @@ def probe_earlier_raise(ctx):
                                                             rec.T, doc), case)
                 else:
                     ctx.cell('earlier-raise-fails-as-it-should')
+                    if directive:
+                        ctx.cell('earlier-raise-behind-a-directive')
                     ctx.nontrivial_count(1)
                 # control: without the earlier statement the documented one is the expected exception, all else runs
-                L2 = [ln for ln in L if ln != '>>> ' + early or ln == '>>> ' + final]
-                if early == final:
-                    L2 = L[:lead] + L[lead + 1:]
+                k_early = lead + (1 if directive else 0)
+                assert L[k_early] == '>>> ' + early
+                L2 = L[:k_early] + L[k_early + 1:]
                 doc2 = '\n'.join(L2)
                 ctx.evaluation()
                 rec = harness.run_doctest(doctest_example.DocTest(doc2), extra_ns=extra_ns())
-                exp_T2 = list(range(1, lead + 1)) + [50 + k for k in range(between)] + [99]
+                exp_T2 = list(range(1, lead + 1)) + ([7] if directive == 'inline' else []) + [50 + k for k in range(between)] + [99]
                 if rec.raised is not None or not rec.summary['passed'] or rec.T != exp_T2:
                     ctx.violation('false-fail', 'an expected exception documented under a statement that is not an expression: '
                                   'must pass with event log %r; observed %s, event log %r\n%s' % (
@@ -442,7 +451,8 @@ def required_cells(tier):
     cells += ['kind:' + k for k in KINDS] + ['msg:' + m for m in MSGS] + ['pos:' + p for p in POSITIONS]
     cells += ['on_error:return', 'on_error:raise']
     cells += ['outcome-exception:' + n for n, _ in OUTCOME_RAISERS]
-    cells += ['earlier-raise-fails-as-it-should', 'documented-exception-under-a-non-expression-passes']
+    cells += ['earlier-raise-fails-as-it-should', 'documented-exception-under-a-non-expression-passes',
+              'earlier-raise-behind-a-directive']
     return cells
 
 
